@@ -353,6 +353,26 @@ impl Ctx {
         self.time_budget_s > 0 && self.t0.elapsed().as_secs() >= self.time_budget_s
     }
 
+    /// Fraction of the soft time budget used so far (0.0 when there is no budget).
+    pub fn time_frac_used(&self) -> f64 {
+        if self.time_budget_s == 0 {
+            0.0
+        } else {
+            self.t0.elapsed().as_secs_f64() / self.time_budget_s as f64
+        }
+    }
+
+    /// Like `case`, but when `run` is false the case is only numbered, not
+    /// executed: lets a workload drop optional cases (time budget) without
+    /// disturbing the case numbering that all shards must share.
+    pub fn case_if<F: FnOnce(&mut Case)>(&mut self, run: bool, variant: &str, stratum: &str, op: &str, f: F) {
+        if run {
+            self.case(variant, stratum, op, f)
+        } else {
+            self.case_no += 1;
+        }
+    }
+
     /// A generator for choices made *outside* cases (same in every shard).
     pub fn rng(&self, salt: u64) -> SmallRng {
         SmallRng::seed_from_u64(mix(self.seed, salt ^ 0xABCD_EF01))
